@@ -736,7 +736,10 @@ theorem sample_blocks_are_source (I : Inp α) (st : St α) (hidx : st.index = no
 def Good (t : Table α) : Prop :=
   (t.map (·.1)).Nodup ∧ (getCol t "V").isSome ∧ (getCol t "F").isSome ∧ (getCol t "P").isSome
 
-/-- the part of the contract of `fill_cij(df, system)` the composition needs: on such a frame it returns such a frame -/
+/-- the part of the contract of `fill_cij(df, system)` the composition needs: on such a frame it returns such a frame.
+    PROVED of the model `Fill.fill` for every scalar type (`fillFrame_model`, `fillFrame_of_model`, Lemmas/StaticFill.lean) and of the
+    driver's `Float` environment (`fillFrame_driver`, Lemmas/StaticFillDriver.lean); kept as a predicate so that `run_is_source`
+    covers any other `fill` with this contract. -/
 def FillFrame (E : Ext α) : Prop := ∀ s t t', Good t → E.fill s t = some t' → Good t'
 
 theorem mem_names_iff (t : Table α) (n : String) : n ∈ t.map (·.1) ↔ (getCol t n).isSome := by
